@@ -98,4 +98,13 @@ CHECKS["C02"] = {
     "note": TRUST + "Ideal AEAD, header-protection masks and HKDF as uninterpreted functions; connection ids assumed prefix-free and not "
             "spelled by ciphertext bytes; packet numbers are concrete sequences here (C16 covers reconstruction over the full range). Bounds in the evidence.",
 }
+CHECKS["C07"] = {
+    "technique": "symbolic execution of the TLS and QUIC pipelines with symbolic MAC/IP addresses, client port and one symbolic capture time per input packet; microsecond round trip decided in a relative-error real-arithmetic model of the timestamp expression lifted from the source",
+    "text": "With all addresses, the client port and every capture time symbolic, and records cut into small segments, z3 shows that "
+            "every exported TLS packet is oriented sender -> receiver with the connection's MAC/IP/ports, carries the time of an "
+            "input packet that overlapped the same record, and the synthetic handshake the first record's time; for QUIC each "
+            "exported datagram carries the direction and time of its input datagram. The reader's timestamp expression (taken from "
+            "dpkt_dsb.py by ast) composed with dpkt's writer returns the same microsecond tick for every tick below 2^51.",
+    "note": TRUST + "Models as in C01/C02; capture times are opaque integers inside the pipeline; the float lemma uses |relative error| <= 2^-53 per operation and claims nothing at or above 2^51 microseconds.",
+}
 NOT_APPLICABLE = {}
